@@ -26,7 +26,7 @@ WSU = "http://docs.oasis-open.org/wss/2004/01/oasis-200401-wss-wssecurity-utilit
 XSD_DT = re.compile(r"^-?\d{4,}-\d\d-\d\dT\d\d:\d\d:\d\d(\.\d+)?(Z|[-+]\d\d:\d\d)?$")
 
 
-def make_wsdl(nparts, complex_idx, local_prefixes=False):
+def make_wsdl(nparts, complex_idx, local_prefixes=False, soap12=False):
     """nparts header parts H0.. in namespaces HNS[i]; part complex_idx (if any) is a complex type.
     local_prefixes: no prefix for a header namespace is in scope of its schema (the schema uses it as its default
     namespace; the message part declares the prefix it needs on itself)."""
@@ -41,7 +41,7 @@ def make_wsdl(nparts, complex_idx, local_prefixes=False):
                      'xmlns:xsd="http://www.w3.org/2001/XMLSchema">%s</xsd:schema>'
                      % (HNS[i], 'xmlns="%s" ' % HNS[i] if local_prefixes else "", body))
     w = wsdlkit.wsdl_doc('<xsd:element name="f" type="xsd:string"/>', "f", None, extra_schemas="".join(extra),
-                         header_parts=[("element", "h%d:H%d" % (i, i)) for i in range(nparts)]).decode()
+                         header_parts=[("element", "h%d:H%d" % (i, i)) for i in range(nparts)], soap12=soap12).decode()
     if local_prefixes:
         for i in range(nparts):
             w = w.replace('<wsdl:part name="h" element="h%d:H%d"/>' % (i, i),
@@ -134,8 +134,9 @@ def wsse_configs(rng, ctx):
                        "enc": False}
                 if rng.random() < 0.5:
                     if rng.random() < 0.5:
-                        t.setnonce("N0nce==")
-                        cfg["nonce"] = "N0nce=="
+                        nv = rng.choice(["N0nce==", "N0nce==", "a&b<c>d", "x \"y\" 'z'"])
+                        t.setnonce(nv)
+                        cfg["nonce"] = nv
                     else:
                         t.setnonce()
                         cfg["nonce"] = "*"
@@ -205,7 +206,7 @@ def run(ctx):
     reqs, reals, metas = [], [], []
     for nparts in range(0, 4):
         for complex_idx in ([None] + list(range(nparts)))[:ctx.pick(2, 4)]:
-            w = make_wsdl(nparts, complex_idx, local_prefixes=rng.random() < 0.4)
+            w = make_wsdl(nparts, complex_idx, local_prefixes=rng.random() < 0.4, soap12=rng.random() < 0.3)
             wcfgs = wsse_configs(rng, ctx)
             for pyval, mj, _ in shapes(rng, nparts, complex_idx, ctx):
                 wc = rng.choice(wcfgs)
@@ -297,6 +298,7 @@ def run(ctx):
         if wc is not None:
             check_security(ctx, meta, h["children"][0], wc[1])
     declared_elsewhere(ctx)
+    unconfigured(ctx)
     zoned_timestamps(ctx)
     ctx.sample(metas[3] if len(metas) > 3 else metas[0])
     ctx.sample(metas[-1])
@@ -305,6 +307,30 @@ def run(ctx):
 def header_names(env):
     h = xmlread.find1(xmlread.parse(env), "Header")
     return [[c["name"][1], c.get("text")] for c in (h["children"] if h is not None else [])]
+
+
+def unconfigured(ctx):
+    """A client that never configured soapheaders (or cleared them with None) sends no header entry at all for the
+    declared parts; configuring and clearing again gives the same."""
+    for nparts in (1, 2):
+        w = make_wsdl(nparts, None)
+        for how in ("never", "none-at-construction", "set-then-none", "set-then-empty"):
+            meta = {"stream": "unconfigured", "declared_parts": nparts, "how": how}
+            ctx.case(common.canon(meta), True)
+            try:
+                if how == "never":
+                    c = wsdlkit.client(w, nosend=True)
+                elif how == "none-at-construction":
+                    c = wsdlkit.client(w, nosend=True, soapheaders=None)
+                else:
+                    c = wsdlkit.client(w, nosend=True, soapheaders=("v",))
+                    c.service.f("x")
+                    c.set_options(soapheaders=None if how == "set-then-none" else ())
+                got = header_names(wsdlkit.envelope_bytes(c.service.f("x")))
+            except Exception as e:
+                got = repr(e)
+            if got != []:
+                ctx.fail("a client without configured soapheaders sends header entries", meta, got, [])
 
 
 def declared_elsewhere(ctx):
